@@ -203,6 +203,43 @@ pub fn run(thorough: bool, seed: u64, driver: &str, rep: &mut Report) {
             }
         }
     }
+    // ---- very large requests (oracles on the real result only): "for every requested leaf count" has no upper end, and a
+    // bound or a reservation that is only reached with tens of thousands of leaves must not change the count ----
+    let big: &[usize] = if thorough { &[40_000, 70_001, 150_000] } else { &[40_000] };
+    for &n in big {
+        for shape in ["ete3", "yule", "cat"] {
+            let s = rng.next() % 1_000_000_007;
+            let brlens = rng.chance(1, 2);
+            let case = format!("gen\t{shape}\t{n}\t{}\tuniform\t{s}", brlens as u8);
+            rep.case(&case, true);
+            rep.count("large_requests");
+            match gen(shape, n, brlens, Distr::Uniform, s) {
+                Err(e) => rep.oracle(if e == "panic" { "no-panic" } else { "refused" }, &format!("{shape}:large"), &case, &e),
+                Ok(t) => {
+                    let slots = slots_of(&t);
+                    let tips = slots.iter().filter(|x| x.children.is_empty()).count();
+                    if slots.len() != 2 * n - 1 {
+                        rep.oracle("size", "not-2n-1-nodes", &case, &format!("{} nodes", slots.len()));
+                    }
+                    if tips != n {
+                        rep.oracle("size", "not-n-leaves", &case, &format!("{tips} leaves"));
+                    }
+                    if slots.iter().any(|x| !x.children.is_empty() && x.children.len() != 2) {
+                        rep.oracle("shape", "not-binary", &case, "");
+                    }
+                    let mut names: Vec<&String> = slots.iter().filter(|x| x.children.is_empty()).filter_map(|x| x.name.as_ref()).collect();
+                    names.sort();
+                    names.dedup();
+                    if names.len() != n {
+                        rep.oracle("names", "tips-not-uniquely-named", &case, &format!("{} distinct names", names.len()));
+                    }
+                    if slots.iter().skip(1).any(|x| x.parent_edge.is_some() != brlens) {
+                        rep.oracle("lengths", if brlens { "absent-despite-request" } else { "present-without-request" }, &case, "");
+                    }
+                }
+            }
+        }
+    }
     match run_driver(driver, &reqs) {
         Err(e) => rep.mismatch("c17.generators", "driver-failed", "", "", &e),
         Ok(ans) => {
